@@ -16,7 +16,7 @@ use crate::{
   rng::{run_seed, splitmix64, str_hash, Rng},
   runner::{run_concurrent_on, Knobs, RunFlags},
   sched::{self, Abort},
-  spec::{apply_call, Builder, Op, OpKind, ReplCall, TreeSpec},
+  spec::{apply_call, Builder, Enforce, Op, OpKind, ReplCall, TreeSpec},
 };
 
 #[derive(Clone, Debug, Serialize, Deserialize, PartialEq)]
@@ -25,10 +25,87 @@ pub struct Phase {
   /// the result must depend on the calls only, not on the clone in between
   #[serde(default)]
   pub fork: bool,
+  /// a programmatic burst of mutating calls, applied before `calls`
+  #[serde(default)]
+  pub burst: Option<Burst>,
   /// mutating calls by the owner (exclusive access)
   pub calls: Vec<ReplCall>,
   /// observers: per simulated thread a list of ops on the shared value
   pub threads: Vec<Vec<OpKind>>,
+}
+
+/// `n` mutating calls with no observer in between, written as a rule instead
+/// of a list (n goes up to 2^16 + 4): call i uses a key of `keys` chosen by
+/// the burst's own PRNG and the content `<base36(i)>`.
+#[derive(Clone, Debug, Serialize, Deserialize, PartialEq)]
+pub struct Burst {
+  pub n: u32,
+  pub keys: Vec<(u32, u32)>,
+  pub seed: u64,
+  /// walk through `keys` in order (ascending positions) instead of drawing
+  pub in_order: bool,
+}
+
+impl Burst {
+  pub fn expand(&self, already: usize) -> Vec<ReplCall> {
+    let mut rng = Rng::new(self.seed);
+    (0..self.n as usize)
+      .map(|i| {
+        let (a, z) = if self.keys.is_empty() {
+          (0, 0)
+        } else if self.in_order {
+          self.keys[i * self.keys.len() / self.n.max(1) as usize]
+        } else {
+          self.keys[rng.usize_below(self.keys.len())]
+        };
+        let mut n = already + i;
+        let mut digits = vec![];
+        loop {
+          digits.push(std::char::from_digit((n % 36) as u32, 36).unwrap());
+          n /= 36;
+          if n == 0 {
+            break;
+          }
+        }
+        let content: String = std::iter::once('<').chain(digits.into_iter().rev()).chain(std::iter::once('>')).collect();
+        ReplCall {
+          start: a,
+          end: z,
+          content,
+          name: None,
+          enforce: if rng.chance(80) { Some(rng.pick(&[Enforce::Pre, Enforce::Normal, Enforce::Post]).clone()) } else { None },
+          via_insert: rng.chance(300),
+        }
+      })
+      .collect()
+  }
+}
+
+/// Long texts are reported by their first difference, not in full.
+fn diff_brief(got: &str, want: &str) -> String {
+  if got.len() <= 300 && want.len() <= 300 {
+    return format!("answered {:?}, the replacement model says {:?}", got, want);
+  }
+  let at = got.bytes().zip(want.bytes()).position(|(a, b)| a != b).unwrap_or(got.len().min(want.len()));
+  let win = |s: &str| {
+    let mut lo = at.saturating_sub(20);
+    while !s.is_char_boundary(lo) {
+      lo -= 1;
+    }
+    let mut hi = (at + 40).min(s.len());
+    while !s.is_char_boundary(hi) {
+      hi += 1;
+    }
+    s[lo.min(s.len())..hi].to_string()
+  };
+  format!(
+    "answered {} bytes, the replacement model says {} bytes; first difference at byte {}: ...{:?}... vs model ...{:?}...",
+    got.len(),
+    want.len(),
+    at,
+    win(got),
+    win(want)
+  )
 }
 
 #[derive(Clone, Debug, Serialize, Deserialize)]
@@ -127,8 +204,30 @@ pub fn check_case(case: &C05Case, keep_trace: bool) -> C05Result {
       let c = r.clone();
       r = c;
     }
+    if let Some(burst) = &phase.burst {
+      counters.inc("probe:burst_of_calls");
+      if burst.n >= 255 {
+        counters.inc("probe:burst_beyond_8_bit_count");
+      }
+      let calls = burst.expand(all_calls.len());
+      for c in &calls {
+        apply_call(&mut r, c);
+      }
+      all_calls.extend(calls);
+      if all_calls.len() > 65_536 {
+        counters.inc("probe:more_than_2^16_replacements");
+      }
+      if pi > 0 {
+        counters.inc("probe:mutation_after_observation");
+      }
+    }
     for c in &phase.calls {
-      // probes
+      // probes (quadratic: skipped once a burst made the history long)
+      if all_calls.len() > 2000 {
+        apply_call(&mut r, c);
+        all_calls.push(c.clone());
+        continue;
+      }
       if all_calls.iter().any(|p| p.start == c.start && p.end == c.end) {
         counters.inc("probe:equal_key_collision");
         if all_calls
@@ -231,11 +330,11 @@ pub fn check_case(case: &C05Case, keep_trace: bool) -> C05Result {
           (_, Answer::NotRun) => None,
           (_, Answer::Panicked(m)) => Some(format!("panicked: {}", m)),
           (OpKind::Source, Answer::Text(t)) | (OpKind::Rope, Answer::Text(t)) => {
-            (t != &expected).then(|| format!("answered {:?}, the replacement model says {:?}", t, expected))
+            (t != &expected).then(|| diff_brief(t, &expected))
           }
-          (OpKind::Buffer, Answer::Bytes(bt)) => (bt.as_slice() != expected.as_bytes()).then(|| {
-            format!("answered {:?}, the replacement model says {:?}", String::from_utf8_lossy(bt), expected)
-          }),
+          (OpKind::Buffer, Answer::Bytes(bt)) => {
+            (bt.as_slice() != expected.as_bytes()).then(|| diff_brief(&String::from_utf8_lossy(bt), &expected))
+          }
           (OpKind::Size, Answer::Size(n)) => (*n != expected.len() as u64)
             .then(|| format!("answered {}, the replacement model says {}", n, expected.len())),
           (OpKind::ToWriter { plan }, w @ Answer::Written { io, .. }) => {
@@ -243,7 +342,17 @@ pub fn check_case(case: &C05Case, keep_trace: bool) -> C05Result {
             counters.add("fault:eintr_fired", io.eintr);
             counters.add("fault:hard_write_error_fired", io.hard_errors);
             counters.add("fault:write_zero_fired", io.zero_returns);
-            judge_written(w, plan, expected.as_bytes())
+            judge_written(w, plan, expected.as_bytes()).map(|d| {
+              if d.len() > 3000 {
+                let mut cut = 3000;
+                while !d.is_char_boundary(cut) {
+                  cut -= 1;
+                }
+                format!("{}... ({} bytes)", &d[..cut], d.len())
+              } else {
+                d
+              }
+            })
           }
           (_, other) => Some(format!("unexpected answer {}", other.brief())),
         };
@@ -305,7 +414,41 @@ impl C05 {
         .collect()
     };
     let many_budget = 21 + rng.usize_below(28);
+    // swarm knob: 4% of the runs contain one burst of mutating calls whose
+    // length sits next to a power of two (31 .. 65 540), in the first phase or
+    // after an observation phase
+    let burst_at: Option<usize> = if !many && rng.chance(40) {
+      Some(if rng.chance(400) { 0 } else { 1 + rng.usize_below(2) })
+    } else {
+      None
+    };
+    let n_phases = match burst_at {
+      Some(p) => n_phases.max(p + 1),
+      None => n_phases,
+    };
     for ph in 0..n_phases {
+      let burst = if burst_at == Some(ph) {
+        let b = crate::gen::legal_positions(&text);
+        let mut keys: Vec<(u32, u32)> = (0..1 + rng.usize_below(8))
+          .map(|_| {
+            let a = *rng.pick(&b);
+            let z = if rng.chance(700) { a } else { *rng.pick(&b) };
+            (a.min(z), a.max(z))
+          })
+          .collect();
+        let in_order = rng.chance(400);
+        if in_order {
+          keys.sort_unstable();
+        }
+        Some(Burst {
+          n: crate::gen::magic_count(&mut rng, 16) as u32,
+          keys,
+          seed: rng.next_u64(),
+          in_order,
+        })
+      } else {
+        None
+      };
       let n_calls = if many {
         if ph == 0 { many_budget * 2 / 3 } else if ph == 1 { many_budget - many_budget * 2 / 3 } else { rng.usize_below(3) }
       } else if calls_so_far.len() >= (if crate::rng::deep() { 20 } else { 12 }) {
@@ -339,6 +482,7 @@ impl C05 {
         .collect();
       phases.push(Phase {
         fork: ph > 0 && rng.chance(200),
+        burst,
         calls,
         threads,
       });
@@ -361,8 +505,9 @@ impl C05 {
     for v in &res.violations {
       oh = splitmix64(oh ^ str_hash(&v.kind) ^ str_hash(&v.detail));
     }
-    let total_calls: usize = case.phases.iter().map(|p| p.calls.len()).sum();
-    let later_mutation = case.phases.iter().skip(1).any(|p| !p.calls.is_empty());
+    let n_of = |p: &Phase| p.calls.len() + p.burst.as_ref().map_or(0, |b| b.n as usize);
+    let total_calls: usize = case.phases.iter().map(n_of).sum();
+    let later_mutation = case.phases.iter().skip(1).any(|p| n_of(p) > 0);
     RunReport {
       index,
       violations: res.violations,
@@ -404,6 +549,26 @@ fn case_shrinks(c: &C05Case) -> Vec<C05Case> {
     }
   }
   for p in 0..c.phases.len() {
+    if let Some(b) = &c.phases[p].burst {
+      let mut with = |nb: Option<Burst>| {
+        let mut x = c.clone();
+        x.phases[p].burst = nb;
+        out.push(reset(x));
+      };
+      with(None);
+      if b.n > 1 {
+        with(Some(Burst { n: b.n / 2, ..b.clone() }));
+        with(Some(Burst { n: b.n - 1, ..b.clone() }));
+        // the next smaller power of two
+        let pow = 1u32 << (31 - b.n.leading_zeros());
+        if pow < b.n {
+          with(Some(Burst { n: pow, ..b.clone() }));
+        }
+      }
+      if b.keys.len() > 1 {
+        with(Some(Burst { keys: vec![b.keys[0]], ..b.clone() }));
+      }
+    }
     if c.phases[p].fork {
       let mut x = c.clone();
       x.phases[p].fork = false;
@@ -550,7 +715,7 @@ impl Property for C05 {
     (serde_json::to_value(&cur).unwrap(), from)
   }
   fn rule(&self) -> String {
-    "case = (inner tree, 1-4 phases, knobs) from splitmix(VERIF_SEED, run index). A phase = optionally continuing on a clone of the value, then 0-4 mutating calls by the owner (insert / replace / *_with_enforce; positions from the char boundaries of the inner text plus positions beyond the end; deliberately colliding (start,end) keys, nesting, overlap, all enforce values) followed by an observation phase in which 1-3 simulated threads share &ReplaceSource and call source, rope, buffer, size, to_writer(fault plan), map, hash, stream (also cancelled), clone-then-observe under a seeded schedule. Every text-bearing answer must equal the 12-line splice model applied to all calls so far. distinct_nontrivial = distinct histories with >= 2 replacements and a mutation after an observation phase.".into()
+    "case = (inner tree, 1-4 phases, knobs) from splitmix(VERIF_SEED, run index). A phase = optionally continuing on a clone of the value, then 0-4 mutating calls by the owner (insert / replace / *_with_enforce; positions from the char boundaries of the inner text plus positions beyond the end; deliberately colliding (start,end) keys, nesting, overlap, all enforce values; in 12% of the cases 21-48 calls on 1-3 colliding keys; in 4% of the cases one programmatic burst of 31 .. 65 540 calls, the count next to a power of two with extra weight on 2^8 and 2^16, in the first phase or after an observation phase) followed by an observation phase in which 1-3 simulated threads share &ReplaceSource and call source, rope, buffer, size, to_writer(fault plan), map, hash, stream (also cancelled), clone-then-observe under a seeded schedule. Every text-bearing answer must equal the 12-line splice model applied to all calls so far. distinct_nontrivial = distinct histories with >= 2 replacements and a mutation after an observation phase.".into()
   }
   fn assumptions(&self) -> Vec<String> {
     vec![
